@@ -94,3 +94,23 @@ V_ENSURES(V_IMP(src != NULL && V_OLD(g_ctx->tick.src) != NULL, V_RET == 0 && g.p
 V_ENSURES(V_IMP(src == NULL || V_OLD(g_ctx->tick.src) == NULL, V_RET == 0 && g.pollrm_calls == V_OLD(g.pollrm_calls) && g.unrefp_calls == V_OLD(g.unrefp_calls)))
 ;
 #endif
+
+#ifdef V_POLLCD_UNIT
+/* poll_create() / poll_destroy() (real epoll.c): the context's own poll descriptor is made once and closed exactly once when the context goes */
+V_FD_CREATOR(int v_epoll_create1(int flags))
+V_CONTRACT
+int poll_create(poll_priv_t *priv)
+V_REQUIRES(v_base_ok() && priv == &g_ppriv && g_open_fd == -1 && !g_oom_mask)
+V_ASSIGNS(g_ppriv.data, g.fd_opened, g_open_fd, g_errno, g_alloc_calls, g_last_alloc)
+V_ENSURES(g.fd_opened == V_OLD(g.fd_opened) + 1 && g_ppriv.data != NULL && V_RET == (g_newfd != -1 ? 0 : -1) && ((epoll_priv_t *)g_ppriv.data)->fd == g_newfd && g_open_fd == g_newfd
+          && ((epoll_priv_t *)g_ppriv.data)->pevents == NULL)                                                               /*@C20.one-poll-descriptor-per-context*/
+;
+V_CONTRACT
+int poll_destroy(poll_priv_t *priv)
+V_REQUIRES(v_base_ok() && priv == &g_ppriv && g_ppriv.data == (void *)&g_ep && g_ep.fd == g_open_fd && g_open_fd >= V_LIBFD_BASE && (g_ep.pevents == NULL || g_ep.pevents == g_pev))
+V_ASSIGNS(g.close_calls, g.close_arg, g_open_fd, g_ep.pevents, g_free_calls, g_free_arg, g_free_arg0)
+V_FREES(g_pev)
+/* the poll descriptor of the context is closed exactly once, and the event buffer is given back */
+V_ENSURES(V_RET == 0 && g.close_calls == V_OLD(g.close_calls) + 1 && g.close_arg == V_OLD(g_open_fd) && g_open_fd == -1 && g_ep.pevents == NULL)   /*@C20.context-poll-descriptor-closed-with-the-context*/
+;
+#endif
